@@ -194,6 +194,7 @@ def run_execution(cfg):
                          sdk_src=seams.sdk_src(), sdk_skew=skew,
                          step_budget=cfg.get("step_budget", 200_000) * (8 if sched.get("lines") else 1))
             s.sdk_probe = lambda kind_, fn_, arg_: w.rec(kind_, fn=fn_, arg=arg_)
+            s.focus = sched.get("focus")
             if replay is not None:
                 ov = replay.get(str(inv), {})
                 s.overrides = {(k if str(k).startswith("y") else int(k)): v for k, v in ov.items()}
